@@ -1,0 +1,29 @@
+//go:build verif
+
+// Package verifhook marks the boundaries at which the verification machinery
+// in /verif stops, pauses or kills the process (build tag "verif").
+package verifhook
+
+import "sync"
+
+var (
+	mu       sync.Mutex
+	callback func(name string)
+)
+
+// SetCallback installs the function called at every Point (nil removes it).
+func SetCallback(f func(name string)) {
+	mu.Lock()
+	callback = f
+	mu.Unlock()
+}
+
+// Point marks a boundary and hands control to the installed callback.
+func Point(name string) {
+	mu.Lock()
+	f := callback
+	mu.Unlock()
+	if f != nil {
+		f(name)
+	}
+}
